@@ -8,6 +8,8 @@ Case lines:
      (container 0 Box / 1 &mut / 2 & / 3 Box + CArc context / 4 CArcSome / 5 clone of a shared CArcSome + CArc context) built from an identical value; see harness/prog/src/shapes.rs for the call codes.
  '102 <container> | call ; ..'  the same for traits with TYPE and LIFETIME parameters: one implementor of Store<u32>, Store<u64>, Store<Pod> and Named<'a, u32>, an opaque
      object per instantiation (harness/prog/src/generic.rs).
+ '104 <handle> | call ; ..'  #[cglue_forward]: the generated impl for Fwd<O> — Fwd(&mut T), Fwd(Box<T>), and opaque objects whose instance is a Fwd(&mut T)
+     (harness/prog/src/fwd.rs).
  '108 <enabled> <container> | castop request ; ..'  group casts followed by calls (see C08).
 Monitor: results, argument digests seen by the implementation, final state, call log (same method, same instance, once) agree."""
 PROP = "C01"
@@ -38,11 +40,11 @@ def run_impl(lines):
 
 
 def model_line(l):
-    return "0 |" if l.startswith(("101 ", "102 ")) else l
+    return "0 |" if l.startswith(("101 ", "102 ", "104 ")) else l
 
 
 def compare(l, impl_rows, model_rows):
-    if l.startswith(("101 ", "102 ")):
+    if l.startswith(("101 ", "102 ", "104 ")):
         return True          # behavioural direct-vs-opaque runs: decided by the implementation-side monitor alone
     return impl_rows == model_rows
 
@@ -60,6 +62,9 @@ def gen_cases(rng, tier):
     b, d2 = G.shapes_cases(rng, tier)
     c, d3 = G.cast_cases(rng, tier)
     e, d4 = G.generic_cases(rng.fork("generic"), tier)
+    f, d5 = G.fwd_cases(rng.fork("fwd"), tier)
+    e = e + f
+    d4.update(d5)
     d1.update(d2); d1.update(d3); d1.update(d4)
     return a + b + c + e, d1
 
